@@ -87,6 +87,7 @@ pub fn main() -> i32 {
     let mut npre = 0;
     let mut envnone = false;
     let mut try_mode = false;
+    let mut feed: Option<&[u8]> = None;
     for a in tiny_std::env::args_os().skip(1) {
         let s = a.as_slice();
         let s = &s[..s.len() - 1];
@@ -113,6 +114,8 @@ pub fn main() -> i32 {
                 npre += 1;
             }
             b"wait" => try_mode = v == b"try",
+            b"feed" => feed = Some(v),
+            b"bulk" => {} // iterator forms of the builder do not exist without alloc
             _ => return 2,
         }
     }
@@ -162,7 +165,12 @@ pub fn main() -> i32 {
     }
     if let Ok(mut child) = res {
         m.n = 0;
+        if let (Some(f), Some(p)) = (feed, child.stdin.as_mut()) {
+            use tiny_std::io::Write as _;
+            let _ = p.write(f);
+        }
         let waited = if try_mode {
+            drop(child.stdin.take());
             loop {
                 match child.try_wait() {
                     Ok(Some(st)) => break Ok(st),
